@@ -27,7 +27,7 @@ def used_cost(deviations, cost):
     return sum(cost(None, lab, alt) for lab, alt in deviations.values())
 
 
-def children(ctl, deviations, bound, cost, classes=None):
+def children(ctl, deviations, bound, cost, classes=None, label_filter=None):
     """all one-step extensions of `deviations` at points after the last deviation"""
     last = max(deviations) if deviations else -1
     used = sum(cost(ctl.points[i].cls, lab, alt) for i, (lab, alt) in deviations.items())
@@ -36,6 +36,8 @@ def children(ctl, deviations, bound, cost, classes=None):
         if p.index <= last:
             continue
         if classes is not None and p.cls not in classes:
+            continue
+        if label_filter is not None and not label_filter(p.cls, p.label):
             continue
         for alt in range(1, p.n):
             c = cost(p.cls, p.label, alt)
@@ -46,7 +48,8 @@ def children(ctl, deviations, bound, cost, classes=None):
     return out
 
 
-def subtree(run_fn, root, active, bound, cost=default_cost, on_exec=None, max_exec=None, **ctl_kw):
+def subtree(run_fn, root, active, bound, cost=default_cost, on_exec=None, max_exec=None,
+            label_filter=None, **ctl_kw):
     """Explore every execution extending `root` (root itself included).
     on_exec(deviations, observation, controller) is called for every execution.
     Returns (#executions, cap_hit)."""
@@ -60,7 +63,7 @@ def subtree(run_fn, root, active, bound, cost=default_cost, on_exec=None, max_ex
             on_exec(dev, obs, ctl)
         if max_exec is not None and n >= max_exec:
             return n, bool(stack)
-        stack.extend(reversed(children(ctl, dev, bound, cost)))
+        stack.extend(reversed(children(ctl, dev, bound, cost, label_filter=label_filter)))
     return n, False
 
 
